@@ -64,12 +64,12 @@ type JV struct {
 	O   []JMember
 }
 
-func jNull() JV          { return JV{T: 'z'} }
-func jBool(b bool) JV    { return JV{T: 'b', B: b} }
-func jStr(s string) JV   { return JV{T: 's', S: s} }
-func jArr(a ...JV) JV    { return JV{T: 'a', A: a} }
+func jNull() JV            { return JV{T: 'z'} }
+func jBool(b bool) JV      { return JV{T: 'b', B: b} }
+func jStr(s string) JV     { return JV{T: 's', S: s} }
+func jArr(a ...JV) JV      { return JV{T: 'a', A: a} }
 func jObj(m ...JMember) JV { return JV{T: 'o', O: m} }
-func jFrac(lit string) JV { return JV{T: 'f', Lit: lit} }
+func jFrac(lit string) JV  { return JV{T: 'f', Lit: lit} }
 func jInt(v int64) JV {
 	if v < 0 {
 		return JV{T: 'i', Neg: true, Mag: strconv.FormatUint(uint64(-(v+1))+1, 10)}
